@@ -706,10 +706,9 @@ fn read_from_file<R: Read>(reader: &mut R, num_bytes_to_read: usize) -> Rc<Objec
                 for byte in buf_slice.iter().take(bytes_read) {
                     result_bytes.push(Rc::new(Object::Byte(*byte)));
                 }
-                // Got fewer bytes than requested, so we're done
-                if bytes_read < read_len {
-                    break;
-                }
+                // A read may return fewer bytes than requested without
+                // being at the end (a partly consumed buffer, a pipe), so
+                // carry on until the count is reached or there is no more
                 total_bytes_read += bytes_read;
             }
             Err(e) => {
